@@ -58,6 +58,9 @@ CLAIMED = {
  "C14": dict(tech="affine layout interpretation (emit1) of the Colang 1.0 offset computer with symbolic block lengths, case split on else, universally quantified loop index, unrolled branches; offset-key writer/reader agreement; opcode exhaustiveness; effect analysis (fresh state, stores into shared flow elements only under never-read keys) over the call graph of compute_next_steps",
              text="Decides, as algebraic identities valid for all block lengths, that every relative offset the Colang 1.0 compiler emits for if/else, while/break/continue, branch blocks and gotos equals the distance to the element the source construct designates; that the runtime reads exactly the keys the compiler writes; that every emitted element type has a consumer; and that deciding the next step cannot observably mutate shared configuration. The replay semantics of compute_next_state is not decided.",
              ref="DESIGN.md C14"),
+ "C08": dict(tech="protocol-constant agreement across components: positional key producer (zero-based counter, +1 after use) vs consumers (plain enumerate index) ; binding-order shape of create_flow_instance; four-site agreement of the return-value channel; who-may-assign a foreign context",
+             text="Decides only the protocol facts three components must agree on: the `$<n>` key format and base between the transformer and every consumer, named-before-default-before-positional binding with the default evaluated only when absent, the Return -> _return_value -> FlowFinished.return_value -> await-assignment channel, and that a context is shared only under the explicit `context` argument while every new instance gets fresh containers. Value identity for all signatures is not decided.",
+             ref="DESIGN.md C08"),
 }
 NA = {
  "C18": "equality of string results over all chunkings of a stateful transducer; no structural necessary condition that is not a brittle proxy (DESIGN.md C18)",
